@@ -98,6 +98,8 @@ class A64:
             elif mn in ('ldr', 'str'):
                 a = self.addr(x, ops[1])
                 size = 4 if self.reg(ops[0])[1] else 8
+                if STACK_TOP - STACK_SIZE <= a < x[32]:
+                    raise Violation('access-below-stack-pointer', '%s touches 0x%x while sp = 0x%x' % (src, a, x[32]))
                 if a % size:
                     raise Violation('misaligned-access', '%s at 0x%x' % (src, a))
                 if mn == 'ldr':
@@ -106,6 +108,8 @@ class A64:
                     mem.store(a, size, self.get(x, ops[0]), src)
             elif mn in ('ldp', 'stp'):
                 a = self.addr(x, ops[2])
+                if STACK_TOP - STACK_SIZE <= a < x[32]:
+                    raise Violation('access-below-stack-pointer', '%s touches 0x%x while sp = 0x%x' % (src, a, x[32]))
                 if a % 8:
                     raise Violation('misaligned-access', '%s at 0x%x' % (src, a))
                 for i in range(2):
